@@ -221,12 +221,15 @@ def gen_large(rng, count):
     """large scale: 70..1030 variants (beyond 64 / 128 / 256 / 1024), dense local reads piling up on a few hot regions,
     two-variant filler reads, and sparse long-range reads (mate-pair / linked-read / phased-block like: 2-4 variants far
     apart, spanning 64..n variant indices); small caps; bridging on and off."""
-    sizes = [70, 100, 130, 200, 200, 260, 300, 400, 1030]
+    sizes = [70, 130, 200, 200, 260, 260, 300, 400, 200, 1030]
     for ci in range(count):
         nv = sizes[ci % len(sizes)] + rng.randint(0, 8)
         positions = [1000 + 100 * i + rng.randint(0, 50) for i in range(nv)]
-        k = rng.choice([1, 2, 2, 3])
+        k = rng.choice([1, 2, 2, 2, 3, 3])
         small = nv > 500
+        # clean: non-overlapping fillers only, so coverage stays below the cap everywhere except in the hot regions and a
+        # long-range read is decided by the hot regions alone; busy: overlapping fillers, duplicates, joining reads
+        clean = rng.random() < 0.7
         reads = []
         if small:
             # > 1024 covered variants with few reads: long contiguous reads tiling the region, k of them overlapping
@@ -235,9 +238,10 @@ def gen_large(rng, count):
                 for j in range(rng.randint(1, k)):
                     reads.append((0, list(range(min(nv - 2, a + j), min(nv, a + j + tile)))))
         # dense local reads: k or k+1 overlapping reads on 1-3 hot regions (saturate whole 64-blocks or parts of them)
-        for _ in range(rng.randint(1, 3)):
-            start = rng.randrange(0, nv - 20)
-            length = rng.choice([8, 13, 30, 64, 70]) if not small else rng.choice([8, 13, 64])
+        for h in range(rng.randint(1, 3)):
+            # the first hot region lies in the middle third (inside the span of the long-range reads) and is short
+            start = rng.randrange(nv // 3, 2 * nv // 3 - 10) if h == 0 else rng.randrange(0, nv - 20)
+            length = rng.choice([8, 13, 30]) if h == 0 else (rng.choice([8, 13, 30, 64, 70]) if not small else rng.choice([8, 13, 64]))
             for j in range(rng.randint(k, k + 1)):
                 a = min(nv - 3, start + j)
                 b = min(nv - 1, a + length)
@@ -246,10 +250,10 @@ def gen_large(rng, count):
         step = rng.choice([2, 2, 3, 5]) if not small else rng.choice([7, 11])
         for a in range(rng.randint(0, 2), nv - 2, step):
             if rng.random() < 0.85:
-                reads.append((0, [a, a + 1] + ([a + 2] if rng.random() < 0.2 else [])))
-                if rng.random() < 0.15:
+                reads.append((0, [a, a + 1] + ([a + 2] if (not clean and rng.random() < 0.2) else [])))
+                if not clean and rng.random() < 0.15:
                     reads.append((0, [a, a + 1]))                      # duplicate: undecided after the first iteration
-            if rng.random() < 0.3 and a + step + 1 < nv:
+            if not clean and rng.random() < 0.3 and a + step + 1 < nv:
                 reads.append((0, [a + 1, a + step]))                   # joins two fillers: covers nothing new -> bridging
         # sparse long-range reads
         for _ in range(rng.randint(1, 6)):
@@ -542,7 +546,7 @@ def run(ctx):
     check_malformed(ctx, list(gen_malformed(rng, ctx.n(60, 600))))
     # large-scale stream: L1 on every case; the model replay (L2) on all cases with <= 420 variants (the > 1024-variant
     # instances are L1 only: replaying them in the model costs ~1 min of vm_compute each)
-    large = list(gen_large(rng, ctx.n(45, 400)))
+    large = list(gen_large(rng, ctx.n(60, 400)))
     check_direct(ctx, large, "large", l2_select=lambda reads, k: len({p for _, vs in reads for p, _ in vs}) <= 420)
     for r in recs[:2] + recs[-2:]:
         ctx.sample({"reads": r[0], "k": r[1], "preferred": r[2], "bridging": r[3], "impl_selected": r[4],
